@@ -606,40 +606,19 @@ func rawExtractSuffixes(re *syntax.Regexp, ci bool) []string {
 		return result
 
 	case syntax.OpConcat:
-		// Try the full extractLiterals pipeline first (handles deeper nesting
-		// through the trieReconstruct fallback it already calls).
-		lits := extractLiterals(re, ci)
-		if lits != nil {
-			switch v := lits.(type) {
-			case allRequired:
-				// Only safe to return a single trie suffix when the concat
-				// collapses to exactly one contiguous literal. Multiple
-				// allRequired elements mean there are wildcards between them
-				// (e.g. "elect.*from" → allRequired{"elect","from"}). Joining
-				// them would produce "electfrom" — a phantom string that never
-				// appears contiguously in a real input — causing false negatives
-				// on valid matches like "select x from". Return nil here so the
-				// caller falls back to the safer anyRequired propagation instead.
-				if len(v) == 1 {
-					return []string{v[0]}
-				}
-				return nil
-			case anyRequired:
-				return []string(v)
-			case combinedRequired:
-				// For trie-reconstruction we need a suffix that is *always* present
-				// when this sub-concat fires. The .all elements are guaranteed;
-				// .any elements are only conditionally present (one of them must be
-				// present, but not a specific one). Returning a .any element would
-				// let the outer prefix combine with a wrong suffix (e.g. "s"+"execute"
-				// instead of "s"+"p_"+"execute" → "sp_execute"), producing a phantom
-				// literal that never appears contiguously in real input.
-				// Return the single longest .all element as the guaranteed suffix.
-				rep := longest([]string(v.all))
-				if rep == "" {
-					return nil
-				}
-				return []string{rep}
+		// A trie suffix is glued to the prefix of the enclosing concat, so it must
+		// be the text the branch *starts* with. A literal taken from further inside
+		// the branch (x+elect -> "elect") would be combined into a phantom string
+		// ("select") that a real match ("sxelect") does not contain.
+		//
+		// Nested tries (e(?:lect|t)) reconstruct literals that begin at the start
+		// of the branch; otherwise only the leading literal of the branch is safe.
+		if nested := trieReconstruct(re, ci); nested != nil {
+			return []string(nested)
+		}
+		if len(re.Sub) > 0 {
+			if s := rawLiteral(re.Sub[0], ci); s != "" {
+				return []string{s}
 			}
 		}
 		return nil
